@@ -83,10 +83,22 @@ impl Rng {
     pub fn below(&mut self, n: u64) -> u64 { self.next() % n }
 }
 
-/// impl-presence probe: inherent const shadows the blanket trait const
-pub struct P<A: ?Sized, B: ?Sized>(pub std::marker::PhantomData<A>, pub std::marker::PhantomData<B>);
+/// impl-presence probes: an inherent const (available only under the trait bound) shadows the blanket trait const
 pub trait NotImpl { const IMPLS: bool = false; }
-impl<A: ?Sized, B: ?Sized> NotImpl for P<A, B> {}
+macro_rules! presence_probe {
+    ($name:ident, $($bound:tt)*) => {
+        pub struct $name<A, B>(pub std::marker::PhantomData<A>, pub std::marker::PhantomData<B>);
+        impl<A, B> NotImpl for $name<A, B> {}
+        impl<A: $($bound)*<B>, B> $name<A, B> { pub const IMPLS: bool = true; }
+    };
+}
+presence_probe!(PFrom, ::core::convert::From);
+presence_probe!(PInto, ::core::convert::Into);
+presence_probe!(PTryFrom, ::core::convert::TryFrom);
+presence_probe!(PTryInto, ::core::convert::TryInto);
+presence_probe!(PIntoExisting, o2o::traits::IntoExisting);
+presence_probe!(PTryIntoExisting, o2o::traits::TryIntoExisting);
+pub fn type_id_of<T: 'static>() -> String { format!("{:?}", std::any::TypeId::of::<T>()) }
 '''
 
 MAIN_HEAD = '''#![allow(dead_code, unused_variables, unused_imports, unused_mut, non_snake_case, non_camel_case_types, unreachable_patterns, unused_parens, unused_braces, clippy::all)]
